@@ -19,9 +19,12 @@ while a:
     if a[0] == "--props": props = a[1].split(","); a = a[2:]
     elif a[0] == "--tier": tier = a[1]; a = a[2:]
     else: a = a[1:]
-wt = Path(f"/tmp/wt-seed-{seed.name}")
-if wt.exists(): shutil.rmtree(wt)
-subprocess.run(["rsync", "-a", "--exclude", "target", "--exclude", ".git", "/repo/", str(wt) + "/"], check=True)
+worker = "0"
+if "--worker" in sys.argv: worker = sys.argv[sys.argv.index("--worker") + 1]
+# one fixed copy per worker: its shadow target dir is reused, so only the patched crate and its
+# dependents are rebuilt from one trial to the next
+wt = Path(f"/tmp/wt-seed-w{worker}")
+subprocess.run(["rsync", "-a", "--delete", "--exclude", "target", "--exclude", ".git", "/repo/", str(wt) + "/"], check=True)
 r = subprocess.run(["git", "apply", "--unsafe-paths", "--directory", str(wt), str(seed / "patch.diff")],
                    cwd="/", capture_output=True, text=True)
 if r.returncode != 0:
@@ -43,7 +46,8 @@ trials = seed / "trials.json"
 old = json.loads(trials.read_text()) if trials.exists() else []
 old.append({"at": time.strftime("%Y-%m-%dT%H:%M:%S"), "verif_commit": subprocess.run(["git", "rev-parse", "--short", "HEAD"], cwd=VERIF, capture_output=True, text=True).stdout.strip(), "results": results})
 trials.write_text(json.dumps(old, indent=1))
-h = hashlib.sha1(str(wt).encode()).hexdigest()[:8]
-shutil.rmtree(VERIF / ".cache" / "shadow" / h, ignore_errors=True)
-shutil.rmtree(wt, ignore_errors=True)
+if "--clean" in sys.argv:
+    h = hashlib.sha1(str(wt).encode()).hexdigest()[:8]
+    shutil.rmtree(VERIF / ".cache" / "shadow" / h, ignore_errors=True)
+    shutil.rmtree(wt, ignore_errors=True)
 # replays written by shadow runs are not kept
